@@ -26,6 +26,7 @@ REASONS = ["altered file reports a different signal length as valid", "altered f
            "altered signal definitions returned as valid",
            "the open wrote to the altered file without changing it", "altered or incomplete annotations returned as valid",
            "altered or incomplete UTC entries returned as valid", "altered or incomplete user data returned as valid",
+           "a time conversion on the altered file disagrees with the UTC entries written",
            "a signal that was never defined appeared"]
 
 
